@@ -5,5 +5,5 @@ W=${WT:-/tmp/wt/me}
 [ -d $W ] || git -C /repo worktree add --detach $W HEAD >/dev/null 2>&1
 git -C $W checkout -q -- . ; git -C $W checkout -q --detach $(git -C /repo rev-parse HEAD)
 git -C $W apply /verif/seeded/$S/patch.diff || { echo "patch does not apply"; exit 2; }
-cd /verif; VERIF_REPO=$W ./check $ID --no-evidence "$@" 2>&1 | grep -E "violated|failed obl|undecided|UNDECIDED|VIOLATION|tier=" | head -12
+cd /verif; VERIF_DEV_TIMEOUTS=1 VERIF_REPO=$W ./check $ID --no-evidence "$@" 2>&1 | grep -E "violated|failed obl|undecided|UNDECIDED|VIOLATION|tier=" | head -12
 git -C $W checkout -q -- .
